@@ -14,8 +14,8 @@ Print Assumptions detection_bytes_are_not_lzma_props.
 
 (** auto-detection dispatches on the first byte and otherwise behaves as the specific decoder *)
 Theorem auto_is_xz_on_FD : forall fuel inp r, inp = 0xFD :: r ->
-  auto_decode fuel false inp = xz_decode_single fuel inp /\
-  auto_decode fuel true inp = xz_decode_concat fuel inp.
+  auto_decode fuel false inp = xz_decode_single fuel false inp /\
+  auto_decode fuel true inp = xz_decode_concat fuel false inp.
 Proof. intros fuel inp r ->. split; reflexivity. Qed.
 Print Assumptions auto_is_xz_on_FD.
 
